@@ -13,7 +13,13 @@ namespace {
 
 static const auto g_processStartTime = std::chrono::steady_clock::now();
 
-static const QChar DEL_MARKER = QChar(0x200B);
+// Request of a missing optional attribute (%{attr?N,M}) to drop the first `count` characters of
+// the literal text that directly follows it, i.e. that is appended at output position `pos`
+struct PendingRemoval
+{
+    int count = 0;
+    int pos = 0;
+};
 
 class Token
 {
@@ -21,7 +27,8 @@ public:
     virtual ~Token() = default;
     virtual size_t estimatedLength() const = 0;
     virtual bool checkCondition(const LogMessage &) const { return true; }
-    virtual void appendToString(const LogMessage &lmsg, QString &dest) const = 0;
+    virtual void appendToString(const LogMessage &lmsg, QString &dest,
+                                PendingRemoval &pending) const = 0;
 };
 
 class ConditionToken : public Token
@@ -233,13 +240,13 @@ class LiteralToken : public FormattedToken
 public:
     explicit LiteralToken(const QString &text) : m_text(text) { }
 
-    void appendToString(const LogMessage &, QString &dest) const override
+    void appendToString(const LogMessage &, QString &dest, PendingRemoval &pending) const override
     {
         int removeCount = 0;
-        while (!dest.isEmpty() && dest.at(dest.size() - 1) == DEL_MARKER) {
-            dest.chop(1);
-            removeCount++;
+        if (pending.count > 0 && pending.pos == dest.size()) {
+            removeCount = pending.count;
         }
+        pending.count = 0;
 
         if (removeCount > 0 && removeCount < m_text.size()) {
             dest.append(m_text.mid(removeCount));
@@ -261,7 +268,7 @@ class MessageToken : public FormattedToken
 public:
     MessageToken() { }
 
-    void appendToString(const LogMessage &lmsg, QString &dest) const override
+    void appendToString(const LogMessage &lmsg, QString &dest, PendingRemoval &) const override
     {
         dest.append(applyPadding(lmsg.message()));
     }
@@ -277,7 +284,7 @@ class TypeToken : public FormattedToken
 public:
     TypeToken() { }
 
-    void appendToString(const LogMessage &lmsg, QString &dest) const override
+    void appendToString(const LogMessage &lmsg, QString &dest, PendingRemoval &) const override
     {
         dest.append(applyPadding(qtMsgTypeToString(lmsg.type())));
     }
@@ -293,7 +300,7 @@ class LineToken : public FormattedToken
 public:
     LineToken() { }
 
-    void appendToString(const LogMessage &lmsg, QString &dest) const override
+    void appendToString(const LogMessage &lmsg, QString &dest, PendingRemoval &) const override
     {
         dest.append(applyPadding(QString::number(lmsg.line())));
     }
@@ -309,7 +316,7 @@ class FileToken : public FormattedToken
 public:
     FileToken() { }
 
-    void appendToString(const LogMessage &lmsg, QString &dest) const override
+    void appendToString(const LogMessage &lmsg, QString &dest, PendingRemoval &) const override
     {
         dest.append(applyPadding(lmsg.file()));
     }
@@ -325,7 +332,7 @@ class ShortFileToken : public FormattedToken
 public:
     ShortFileToken(const QString &baseDir = QString()) : m_baseDir(baseDir) { }
 
-    void appendToString(const LogMessage &lmsg, QString &dest) const override
+    void appendToString(const LogMessage &lmsg, QString &dest, PendingRemoval &) const override
     {
         QString file = lmsg.file();
         QString value;
@@ -370,7 +377,7 @@ class FunctionToken : public FormattedToken
 public:
     FunctionToken(bool cleanup = true) : m_cleanup(cleanup) { }
 
-    void appendToString(const LogMessage &lmsg, QString &dest) const override
+    void appendToString(const LogMessage &lmsg, QString &dest, PendingRemoval &) const override
     {
         QString value;
         if (m_cleanup) {
@@ -641,7 +648,7 @@ class CategoryToken : public FormattedToken
 public:
     CategoryToken() { }
 
-    void appendToString(const LogMessage &lmsg, QString &dest) const override
+    void appendToString(const LogMessage &lmsg, QString &dest, PendingRemoval &) const override
     {
         dest.append(applyPadding(lmsg.category()));
     }
@@ -657,7 +664,7 @@ class TimeToken : public FormattedToken
 public:
     explicit TimeToken(const QString &format = QString()) : m_format(format) { }
 
-    void appendToString(const LogMessage &lmsg, QString &dest) const override
+    void appendToString(const LogMessage &lmsg, QString &dest, PendingRemoval &) const override
     {
         QString value;
         if (m_format == QLatin1String("process")) {
@@ -699,7 +706,7 @@ class ThreadIdToken : public FormattedToken
 public:
     ThreadIdToken() { }
 
-    void appendToString(const LogMessage &lmsg, QString &dest) const override
+    void appendToString(const LogMessage &lmsg, QString &dest, PendingRemoval &) const override
     {
         dest.append(applyPadding(QString::number(lmsg.threadId())));
     }
@@ -715,7 +722,7 @@ class QThreadPtrToken : public FormattedToken
 public:
     QThreadPtrToken() { }
 
-    void appendToString(const LogMessage &lmsg, QString &dest) const override
+    void appendToString(const LogMessage &lmsg, QString &dest, PendingRemoval &) const override
     {
         QString value = QStringLiteral("0x") + QString::number(lmsg.qthreadptr(), 16);
         dest.append(applyPadding(value));
@@ -739,7 +746,7 @@ public:
     {
     }
 
-    void appendToString(const LogMessage &lmsg, QString &dest) const override
+    void appendToString(const LogMessage &lmsg, QString &dest, PendingRemoval &pending) const override
     {
         if (lmsg.hasAttribute(m_attributeName)) {
             dest.append(applyPadding(lmsg.attribute(m_attributeName).toString()));
@@ -752,14 +759,13 @@ public:
             return;
         }
 
-        // Optional attribute not found: remove characters before and add ZWSP markers for removeAfter
+        // Optional attribute not found: remove characters before and ask the next literal to
+        // drop its first removeAfter characters
         if (m_removeBefore > 0 && dest.size() >= m_removeBefore) {
             dest.chop(m_removeBefore);
         }
-        // Append ZWSP markers to signal how many chars to remove from next token
-        for (int i = 0; i < m_removeAfter; ++i) {
-            dest.append(DEL_MARKER);
-        }
+        pending.count = m_removeAfter;
+        pending.pos = dest.size();
     }
 
     size_t estimatedLength() const override
@@ -948,13 +954,12 @@ public:
         QString result;
         result.reserve(estimatedLength);
 
+        PendingRemoval pending;
         for (const auto &token : std::as_const(m_tokens)) {
             if (token->checkCondition(lmsg)) {
-                token->appendToString(lmsg, result);
+                token->appendToString(lmsg, result, pending);
             }
         }
-
-        result.remove(DEL_MARKER);
 
         return result;
     }
